@@ -406,11 +406,30 @@ func runC02(c *core.Ctx) {
 			c.Count("clone_swaps", 1)
 		}
 	}
+	// read-only calls right before a mutation (of the value about to be added or removed,
+	// or of a random one): whatever a lookup remembers must not change how the mutation
+	// rebalances. A third of the histories make them, so that both regimes are seen.
+	withLookups := r.Chance(1, 3)
+	lookups := func(v int) {
+		if !withLookups || r.Bool() {
+			return
+		}
+		target := v
+		if r.Chance(1, 3) && len(keys) > 0 {
+			target = keys[r.Intn(len(keys))]
+		}
+		if got := t.Contains(target); got != present[target] {
+			fail("Contains:wrong", fmt.Sprintf("Contains(%d)=%v, expected %v", target, got, present[target]))
+		}
+		hist = append(hist, fmt.Sprintf("Contains(%d)", target))
+		c.Count("lookups_before_mutations", 1)
+	}
 	add := func(v int) bool {
 		if present[v] {
 			return true
 		}
 		maybeClone()
+		lookups(v)
 		hist = append(hist, fmt.Sprintf("Add(%d)", v))
 		hh = core.Mix(hh, uint64(v)*2)
 		cmpCalls = 0
@@ -430,6 +449,7 @@ func runC02(c *core.Ctx) {
 			return true
 		}
 		maybeClone()
+		lookups(v)
 		hist = append(hist, fmt.Sprintf("Remove(%d)", v))
 		hh = core.Mix(hh, uint64(v)*2+1)
 		cmpCalls = 0
